@@ -55,7 +55,13 @@ def generate(rng, tier):
         s = Script("x86", policy)
         prog = petruth.make_program(rng, 8)
         base = 0x7ff600000000 + 0x10000 * rng.below(0x1000)
-        petruth_mod(s, prog, base)
+        # one program in three is registered without its text bytes: caller frames unwind the same (only
+        # innermost frames need the bytes, for epilog detection)
+        notext = (pi % 3 == 2)
+        # unwind infos are spread over .rdata and .xdata; .xdata begins exactly where .rdata ends
+        ids = sorted(prog["uinfos"])
+        rdata_ids = set(ids[: rng.range(0, len(ids) - 1)]) if pi % 2 == 0 else set()
+        petruth_mod(s, prog, base, notext, rdata_ids)
         s.add("new U"); s.add("add U M")
         nsc = 25 if tier == "quick" else 80
         for k in range(nsc):
@@ -67,6 +73,19 @@ def generate(rng, tier):
             s.mem(mid, sorted(sc["mem"].items()))
             inner = sc["frames"][0]
             s.add("newcache C")
+            if notext:
+                # walk from the first caller frame on
+                if len(sc["frames"]) < 2:
+                    continue
+                fr1 = sc["frames"][1]
+                chain = [(fr["ra"], fr["caller_regs"][RSP], fr["caller_regs"][5]) for fr in sc["frames"][1:-1]]
+                s.add("newcache D")
+                for fr in sc["frames"][1:]:
+                    for rep in range(2):
+                        ln = s.add("unwind U D ra %s %s %s" % (hx(fr["pc"]), petruth.script_regs(fr["pc"], fr["regs_in"]), mid),
+                                   tag="step-notext:%s:%s" % (fr["func"].shape, "warm" if rep else "fresh"))
+                        s.meta[ln] = {"ra": fr["ra"], "caller": fr["caller_regs"], "in": fr["regs_in"]}
+                continue
             chain = []
             for fr in sc["frames"][:-1]:
                 chain.append((fr["ra"], fr["caller_regs"][RSP], fr["caller_regs"][5]))
@@ -82,7 +101,7 @@ def generate(rng, tier):
                                tag="step:%s:%s:%s" % (fr["func"].shape, fr.get("phase", "caller"), "warm" if rep else "fresh"))
                     s.meta[ln] = {"ra": fr["ra"], "caller": fr["caller_regs"], "in": fr["regs_in"]}
         # arbitrary registers and stack
-        ndiff = 60 if tier == "quick" else 300
+        ndiff = 0 if notext else (60 if tier == "quick" else 300)
         s.add("newcache E")
         for k in range(ndiff):
             f = rng.choice(prog["funcs"])
@@ -114,9 +133,14 @@ def generate(rng, tier):
             mid = "D%d" % k
             s.mem(mid, sorted(dict.items(mem)))
             addr = base + rva + (1 if mode == "ra" else 0)
+            # the cache is shared by all probes of the program; one probe in three is preceded by a call at the
+            # same address whose registers make the stack arithmetic leave the address space
+            if rng.chance(1, 3):
+                hostile = list(regs)
+                for r in ([RSP] + ([f.fpreg] if f.fpreg is not None else [])):
+                    hostile[r] = (1 << 64) - 8 * rng.range(1, 4)
+                s.add("unwind U E %s %s %s %s" % (mode, hx(addr), petruth.script_regs(addr, hostile), mid), tag="proc:hostile-predecessor")
             for rep in range(2):
-                if rep == 0:
-                    s.add("newcache E")
                 ln = s.add("unwind U E %s %s %s %s" % (mode, hx(addr), petruth.script_regs(addr, regs), mid),
                            tag="proc:%s:%s:%s:%s:%s" % (f.shape, phase, mode, "warm" if rep else "fresh", "ok" if res else "fails"))
                 s.meta[ln] = {"proc": None if res is None else [res[0], res[1]], "in": regs}
@@ -127,8 +151,9 @@ def generate(rng, tier):
         out.append(("pe-%s-%d" % (policy, pi), s))
     return out
 
-def petruth_mod(s, prog, base):
-    return module_pe(s, "M", base, base + 0x400000, base, IMAGE_BASE, prog["table"], prog["uinfos"], prog["text_lo"], prog["text"])
+def petruth_mod(s, prog, base, notext=False, rdata_ids=()):
+    return module_pe(s, "M", base, base + 0x400000, base, IMAGE_BASE, prog["table"], prog["uinfos"], prog["text_lo"],
+                     None if notext else prog["text"], rdata_ids=rdata_ids)
 
 def judge(script, impl):
     bad = []
